@@ -13,7 +13,8 @@ EXPL = ("W19.1 all 3x3 + 20x20 conversion ratios and their inverses, W19.2 all 2
         "identity only under RATIO == 1.0, every other arm multiplies the value / total by RATIO, emits that product unaltered (no cast, rounding or "
         "further arithmetic after the multiplication) and leaves occurrences unchanged. "
         "R19.6 the unit constant Duration writes equals its declared MetricValue::Unit. R19.7 the number written for a Duration is read through an exact accessor "
-        "(as_secs_f64 / as_nanos), never a truncating one. Not decided: rounding of value x ratio.")
+        "(as_secs_f64 / as_nanos), never a truncating one. R19.8 a Value::write body that builds its own checking / converting writer writes every "
+        "wrapped generic value through such a writer, never through the caller's writer. Not decided: rounding of value x ratio.")
 CORE = "metrique_writer_core"
 
 
@@ -212,4 +213,36 @@ def run(ctx):
                       "cannot find how the Duration is turned into a number (expected as_secs_f64 / as_nanos)",
                       "Duration read through %s only" % sorted(set(exact)))
     ctx.floor("R19.7", "Duration value writes", n7, 1)
+    # ------------------------------------------------------------------ R19.8 a unit-aware value never hands the raw writer to the value it wraps
+    # wherever a Value::write body builds a checking / converting writer of its own (WithUnit's Wrapper, the distribution Collector, ...),
+    # every write of a wrapped generic value goes through such a writer: a shortcut that passes the caller's writer straight on skips the
+    # `written unit == promised unit` check for that path
+    vw_adts = {(imp.get("self_head") or {}).get("adt") for imp in F.impls_of("ValueWriter") if imp["crate"] in (CORE, "metrique_writer")}
+    vw_adts = {a for a in vw_adts if a and (a.startswith("metrique_writer") or a.startswith("<metrique_writer"))}
+    n8 = 0
+    for cr in (CORE, "metrique_writer"):
+        for b in F.all_bodies(cr):
+            if not (b.name == "write" and b.impl and (b.impl.get("trait") or "").endswith("::Value")) or "::tests::" in b.path or "::test_util" in b.path:
+                continue
+            own = [(i_, s_["lhs"]["l"]) for i_ in b.live_blocks() for s_ in b.stmts(i_) if s_["k"] == "assign" and s_["rv"]["k"] == "agg" and s_["rv"].get("adt") in vw_adts]
+            if not own or not ("unit::" in b.path or "distribution" in b.path or "MetricValue" in str(b.d.get("preds", ""))):
+                continue
+            pr = Prov(b)
+            own_locals = {l for _, l in own}
+            for c in b.calls():
+                if not c.is_trait_method("Value", "write") or len(c.args) < 2:
+                    continue
+                st = c.self_ty or ""
+                if "::" in st and not st.startswith("&"):      # a concrete helper type of this body, not a wrapped generic value
+                    continue
+                n8 += 1
+                o = pr.operand(c.args[1])
+                through = any(x[0] == "agg" and x[1] in vw_adts for x in o) or (op_local(c.args[1]) in own_locals) or \
+                    any(x[0] == "agg" for x in o) or any(x[0] == "call" for x in o)
+                raw = any(x[0] == "arg" and x[1] == 2 and not x[2] for x in o) and not through
+                ctx.check(not raw, "R19.8", fnkey(b) + "#inner-value-written-through-own-writer", loc(b, c.bb),
+                          "the wrapped value is written to the caller's writer directly on some path, bypassing this type's own checking / converting writer: "
+                          "a value that writes another unit than it declares is then emitted under the declared unit without a validation error",
+                          "inner write goes through the body's own writer")
+    ctx.floor("R19.8", "inner writes in unit-aware Value::write bodies", n8, 2)
     return EXPL
